@@ -1042,7 +1042,8 @@ def load_known():
 def finish(rep, cfgs=("default",)):
     """prints result lines, writes evidence, returns exit code."""
     known = {f["key"]: f for f in load_known().get("findings", []) if f.get("property") == rep.prop}
-    vdir = os.path.join(VERIF, "evidence", "violations")
+    outbase = os.environ.get("VERIF_OUT") or VERIF
+    vdir = os.path.join(outbase, "evidence", "violations")
     os.makedirs(vdir, exist_ok=True)
     # remove stale violation files of this property
     for f in os.listdir(vdir):
@@ -1071,7 +1072,7 @@ def finish(rep, cfgs=("default",)):
     for v in new:
         n += 1
         path = os.path.join("evidence", "violations", "%s-%d.json" % (rep.prop, n))
-        with open(os.path.join(VERIF, path), "w") as fh:
+        with open(os.path.join(outbase, path), "w") as fh:
             json.dump(v, fh, indent=1)
         print("VIOLATION property=%s replay=%s" % (rep.prop, path))
         print("  rule=%s function=%s instance=%s" % (v["rule"], v["function"], v["instance"]))
@@ -1108,11 +1109,11 @@ def finish(rep, cfgs=("default",)):
         "wall_s": round(wall, 3),
         "violations": len(new),
     }
-    os.makedirs(os.path.join(VERIF, "evidence"), exist_ok=True)
-    tmp = os.path.join(VERIF, "evidence", ".%s.json.tmp" % rep.prop)
+    os.makedirs(os.path.join(outbase, "evidence"), exist_ok=True)
+    tmp = os.path.join(outbase, "evidence", ".%s.json.tmp" % rep.prop)
     with open(tmp, "w") as fh:
         json.dump(ev, fh, indent=1)
-    os.replace(tmp, os.path.join(VERIF, "evidence", "%s.json" % rep.prop))
+    os.replace(tmp, os.path.join(outbase, "evidence", "%s.json" % rep.prop))
     print(
         "%s: %d obligations, %d discharged, %d known finding(s), %d new violation(s), %.1fs"
         % (rep.prop, rep.obligations, rep.discharged, len(printed), len(new), wall)
